@@ -70,6 +70,7 @@ type Config struct {
 	LoneLimit     int            // consecutive lone poll intervals that make a livelock verdict
 	MapBase       string         // base order handed to the chooser by MapKeys: asc (default) | desc | rot
 	YieldOnMake   bool           // treat channel creation as a preemption point
+	YieldOnMap    bool           // treat the start of a range-over-map loop as a preemption point
 	ClockAdvance  bool           // offer "advance the clock" as a scheduling option while goroutines are runnable
 	KeepTrace     bool           // keep the full event list (replays, samples)
 	WallLimit     time.Duration  // real-time watchdog for one run
